@@ -215,11 +215,14 @@ def check(prop, tier, seed, P):
         cmd = ["cargo", "kani", "--harness", short, "-Z", "concrete-playback", "--concrete-playback=print", "--output-format", "terse"]
         if "--features" in v["features"]:
             cmd += ["--features", "hashable"]
-        try:
-            p = subprocess.run(cmd, cwd=KDIR, capture_output=True, text=True, timeout=900, env=ENV)
-            txt = p.stdout
-        except subprocess.TimeoutExpired:
-            txt = "concrete playback timed out"
+        if i >= 2:
+            txt = "concrete playback is produced for the first two failing harnesses only (each takes minutes); ./check %s --replay re-runs this harness" % prop
+        else:
+            try:
+                p = subprocess.run(cmd, cwd=KDIR, capture_output=True, text=True, timeout=900, env=ENV)
+                txt = p.stdout
+            except subprocess.TimeoutExpired:
+                txt = "concrete playback timed out"
         m = re.search(r"Concrete playback unit test for.*?```\n(.*?)```", txt, re.S)
         failed = re.findall(r"Failed Checks: (.*)", txt)
         path = os.path.join(ROOT, "replay", "out", "%s-%d.json" % (prop, i + 1))
